@@ -1305,8 +1305,27 @@ def check_optional(rep, f, c, e, conds, ln, local=()):
     if k == 'call' and e[1] == ('name', 'getattr') and len(e[2]) == 2 and not e[3] and e[2][1][0] != 'const' and _is_bus(e[2][0]):
         need = ('call', ('name', 'hasattr'), (e[2][0], e[2][1]), ())
         have = [ir.split_neg(x) if p else (ir.split_neg(x)[0], not ir.split_neg(x)[1]) for x, p in conds] + list(local)
+        def filtered_by_hasattr(nm, obj):
+            # the name is component j of an element of a comprehension whose `if` keeps only names the object has
+            x, path = nm, []
+            while x[0] == 'sub' and x[2][0] in ('const', 'idx'):
+                path.append(x[2])
+                x = x[1]
+            if x[0] != 'gen' or len(x) < 4 or len(x[3]) != 1:
+                return False
+            elt, (tgt, it, ifs) = x[2], x[3][0]
+            comp = elt
+            for s_ in reversed(path[:-1] if path and path[-1][0] == 'idx' else path):
+                if s_[0] == 'const' and comp[0] == 'tuple' and isinstance(s_[1], int) and 0 <= s_[1] < len(comp[1]):
+                    comp = comp[1][s_[1]]
+                else:
+                    return False
+            return any(c.norm(cnd) == c.norm(('call', ('name', 'hasattr'), (obj, comp), ())) for cnd in ifs)
         if any(h == (need, True) for h in have):
             rep.ok("C19.7", f.site, "dynamic access to an interface member is under hasattr() of the same name", _role_free(ir.show(e)))
+        elif filtered_by_hasattr(e[2][1], e[2][0]):
+            rep.ok("C19.7", f.site, "dynamic access to an interface member is under hasattr() of the same name",
+                   _role_free(ir.show(e))[:120] + " (the name comes from a list filtered by hasattr() of the same object)")
         else:
             rep.bad("C19.7", f.site, f"unguarded dynamic access: {_role_free(ir.show(e))}",
                     "getattr() without a default on an interface member whose presence depends on the feature set: when the bus lacks "
